@@ -97,6 +97,39 @@ class World:
         socket_mod.create_connection = refuse
         socket_mod.socket.connect = lambda sock, addr: refuse()
         socket_mod.getaddrinfo = lambda *a, **kw: refuse()
+        # threads: the scheduler decides who runs. The policy is the simplest
+        # legal schedule - a started thread runs to completion at once, on
+        # the starter's stack (a thread body that waits for its starter would
+        # hang and end as a harness time-out, never as a verdict). The one
+        # cross-thread call a server makes on itself, shutdown(), which waits
+        # for the serving loop by design, becomes what it means: the flag the
+        # loop looks at.
+        import threading
+        world = self
+
+        def start_inline(th):
+            world.fire('thread_run_inline')
+            th._started.set()
+            target = getattr(th, '_target', None)
+            try:
+                if (getattr(target, '__name__', '') == 'shutdown' and hasattr(
+                        getattr(target, '__self__', None),
+                        '_BaseServer__shutdown_request')):
+                    target.__self__._BaseServer__shutdown_request = True
+                else:
+                    th.run()
+            except SystemExit:
+                pass                    # ends the thread, not the process
+            except BaseException:
+                try:
+                    threading.excepthook(threading.ExceptHookArgs(
+                        (*sys.exc_info(), th)))
+                except BaseException:
+                    pass
+            finally:
+                th._is_stopped = True
+                th._tstate_lock = None
+        threading.Thread.start = start_inline
         if self.plan.get('requests') is not None:
             import socket
             import socketserver
@@ -1091,10 +1124,24 @@ class SimNet:
         return build_request_bytes(req)
 
     def serve_forever(self, server, poll_interval=0.5):
-        # the simulator's scheduler: one accept step per planned connection
-        while self.next < len(self.requests):
-            server._handle_request_noblock()
-            self._report(self.conns[-1])
+        # the simulator's scheduler: one accept step per planned connection;
+        # like the real loop it runs service_actions() after every step and
+        # ends when shutdown() was requested
+        done = getattr(server, '_BaseServer__is_shut_down', None)
+        if done is not None:
+            done.clear()
+        try:
+            while self.next < len(self.requests):
+                if getattr(server, '_BaseServer__shutdown_request', False):
+                    break
+                server._handle_request_noblock()
+                self._report(self.conns[-1])
+                server.service_actions()
+        finally:
+            if hasattr(server, '_BaseServer__shutdown_request'):
+                server._BaseServer__shutdown_request = False
+            if done is not None:
+                done.set()
         self.world.ev('server_idle')
 
     def responses(self):
